@@ -290,6 +290,42 @@ fn sub_histories(input: &[u8], st: &mut Stats) -> R {
     check_history(&h, st)
 }
 
+/// histories behind a module head that declares a coded half of everything tools know by name
+/// (every capability, every extension name, every extended instruction set) and with texts of that
+/// vocabulary in OpExtension / OpSourceExtension / OpName / OpString between the declarations: a
+/// literal's width is decided by the type declarations alone
+fn sub_vocabulary(input: &[u8], st: &mut Stats) -> R {
+    let mut cs = Cs::new(input);
+    let mut h = gen_history(&mut cs);
+    let code = cs.below(64);
+    let pre = crate::layout::vocabulary_prefix(code);
+    // split the prefix into instructions
+    let mut at = 0;
+    let mut items = vec![];
+    while at < pre.len() {
+        let wc = (pre[at] >> 16) as usize;
+        items.push(Item::Other(pre[at..at + wc].to_vec()));
+        at += wc;
+    }
+    let texts = crate::vocab::texts();
+    for _ in 0..cs.below(4) {
+        let t = &texts[cs.below(texts.len())];
+        let op = [10u32, 4, 5, 7, 330][cs.below(5)];
+        let mut w = vec![op];
+        if op == 5 || op == 7 {
+            w.push(3000 + cs.below(8) as u32);
+        }
+        w.extend(str_words(t));
+        w[0] |= (w.len() as u32) << 16;
+        let pos = cs.below(h.items.len() + 1);
+        h.items.insert(pos, Item::Other(w));
+    }
+    items.extend(h.items);
+    h.items = items;
+    st.count("vocabulary_histories");
+    check_history(&h, st)
+}
+
 /// histories with a bijective renaming that sends one to three ids to the extreme values
 /// 0 / 0x7fffffff / 0x80000000 / 0xffffffff (a type id or selector may legally be any word)
 fn sub_edge_ids(input: &[u8], st: &mut Stats) -> R {
@@ -305,7 +341,7 @@ fn sub_edge_ids(input: &[u8], st: &mut Stats) -> R {
     if defined.is_empty() {
         return Ok(());
     }
-    const EDGE: [u32; 12] = [0, u32::MAX, 0x8000_0000, 0x7fff_ffff, 65_535, 65_536, 65_537, 131_071, 131_072, 0x00ff_ffff, 0x0100_0000, 0x0040_0000];
+    const EDGE: [u32; 18] = [0, u32::MAX, 0x8000_0000, 0x7fff_ffff, 65_535, 65_536, 65_537, 131_071, 131_072, 0x00ff_ffff, 0x0100_0000, 0x0040_0000, 999_999, 1_000_000, 1_000_001, 100_000, 10_000_000, 1_000_000_000];
     let mut map: Vec<(u32, u32)> = vec![];
     let n = 1 + cs.below(3);
     for _ in 0..n {
@@ -476,14 +512,8 @@ fn sub_structured(input: &[u8], st: &mut Stats) -> R {
 /// of every one of them, each encoded with the width its declaration demands. "For all binaries"
 /// includes the large ones; nothing in the statement lets the answer depend on how much was declared.
 pub fn gen_bulk(cs: &mut Cs) -> (Vec<u32>, String) {
-    let n = match cs.below(5) {
-        0 => 65_530 + cs.below(16),
-        1 => 65_535 + cs.below(4),
-        2 => 131_066 + cs.below(12),
-        3 => 65_537 + cs.below(3_000),
-        _ => 66_000 + cs.below(69_000),
-    };
-    let kind = cs.below(5);
+    let n = cs.big_count();
+    let kind = cs.below(6);
     let bulk_base: u32 = [1_000u32, 20_000, 65_000, 200_000, 0x0100_0000][cs.below(5)];
     let next = std::cell::Cell::new(1u32);
     let fresh = || {
@@ -505,9 +535,12 @@ pub fn gen_bulk(cs: &mut Cs) -> (Vec<u32>, String) {
             }
         }
     };
+    let chain_width: std::cell::Cell<Option<usize>> = std::cell::Cell::new(None);
     let bulk = |items: &mut Vec<Item>, tys: &[(u32, usize)], cs: &mut Cs| {
         let t0 = tys.first().map(|t| t.0).unwrap_or(900);
-        let t1 = tys.get(cs.below(tys.len().max(1))).map(|t| t.0).unwrap_or(901);
+        let t1e = tys.get(cs.below(tys.len().max(1))).copied();
+        let t1 = t1e.map(|t| t.0).unwrap_or(901);
+        chain_width.set(t1e.map(|t| t.1));
         for i in 0..n as u32 {
             let id = bulk_base + i;
             items.push(match kind {
@@ -515,6 +548,8 @@ pub fn gen_bulk(cs: &mut Cs) -> (Vec<u32>, String) {
                 1 => Item::TypeInt { id, width: 32, sign: 1 },
                 2 => Item::Value { op: 1, ty: if i % 2 == 0 { t0 } else { t1 }, id, extra: vec![] },
                 3 => if i % 3 == 0 { Item::TypeFloat { id, width: 200 + i, enc: false } } else { Item::Value { op: 1, ty: t1, id, extra: vec![] } },
+                // a chain: every value is typed by the previous one (propagation depth = run length)
+                5 => Item::Value { op: 1, ty: if i == 0 { t1 } else { id - 1 }, id, extra: vec![] },
                 _ => Item::Other(vec![0x0001_0000]),
             });
         }
@@ -574,6 +609,17 @@ pub fn gen_bulk(cs: &mut Cs) -> (Vec<u32>, String) {
     if place == 4 {
         bulk(&mut items, &tys, cs);
     }
+    if kind == 5 {
+        // the end of the chain and a few links inside it are consumed as well; their width is the
+        // width of the type the chain started from (t1 at the time the run was placed)
+        if let Some(w) = chain_width.get() {
+            for k in [n as u32 - 1, n as u32 / 2, 1, 65_535, 65_536] {
+                if (k as usize) < n {
+                    vals.push((bulk_base + k, w));
+                }
+            }
+        }
+    }
     // consumers: constants of every type and of a few values, then switches in a later function
     let lit = |cs: &mut Cs, w: usize| -> Vec<u32> { (0..w).map(|_| cs.lit32()).collect() };
     for &(t, w) in &tys.clone() {
@@ -600,7 +646,7 @@ pub fn gen_bulk(cs: &mut Cs) -> (Vec<u32>, String) {
     let small: Vec<String> = h.items.iter().filter(|i| !matches!(i, Item::TypeInt { id, .. } | Item::TypeFloat { id, .. } | Item::Value { id, .. } if *id >= bulk_base && *id < bulk_base + n as u32) && !matches!(i, Item::Other(w) if w == &vec![0x0001_0000u32])).map(|i| format!("{:?}", i)).collect();
     let mut w = h.words();
     w[3] = 0x0200_0000;
-    (w, format!("bulk run: {} items of kind {} (0 = pairwise different int widths 100+i, 1 = identical 32-bit int types, 2 = OpUndef values of the first/another declared type, 3 = mixed float types and values, 4 = OpNop), ids {}.., placed at stage {} (0 = first, 1 = between the type groups, 2 = after the module-scope values, 3 = inside the first function body, 4 = after the first function)\nthe other instructions in order:\n{}", n, kind, bulk_base, place, small.join("\n")))
+    (w, format!("bulk run: {} items of kind {} (0 = pairwise different int widths 100+i, 1 = identical 32-bit int types, 2 = OpUndef values of the first/another declared type, 3 = mixed float types and values, 4 = OpNop, 5 = a chain of values each typed by the previous one), ids {}.., placed at stage {} (0 = first, 1 = between the type groups, 2 = after the module-scope values, 3 = inside the first function body, 4 = after the first function)\nthe other instructions in order:\n{}", n, kind, bulk_base, place, small.join("\n")))
 }
 
 fn sub_bulk(input: &[u8], st: &mut Stats) -> R {
@@ -696,6 +742,7 @@ pub const SUBS: &[Sub] = &[
     Sub { name: "redeclared-ids", f: sub_redeclared },
     Sub { name: "structured-histories", f: sub_structured },
     Sub { name: "bulk-histories", f: sub_bulk },
+    Sub { name: "vocabulary-histories", f: sub_vocabulary },
 ];
 
 pub fn run(ctx: &Ctx) {
@@ -707,6 +754,7 @@ pub fn run(ctx: &Ctx) {
     drive_random(ctx, &SUBS[4], ctx.n(20_000, 10_000_000), 600);
     drive_random(ctx, &SUBS[5], ctx.n(20_000, 10_000_000), 640);
     drive_random_costly(ctx, &SUBS[6], ctx.n(12, 3_000), 400);
+    drive_random(ctx, &SUBS[7], ctx.n(6_000, 2_000_000), 600);
 }
 
 pub fn finish(ctx: &Ctx) -> i32 {
